@@ -5,6 +5,7 @@
  *         H r|a slot TYPE|TYPE..  (vbi_event_handler_register / _add of handler <slot>; "0": _unregister / _remove)
  *         V cni pil pty pcs | 1 cni mjd utc lto | 2 cni pil lci luf prf pcs mi pty [x = two bit errors in one Hamming byte]
  *         N name | L call-letters | W b0 b1
+ *         G (an empty frame whose time stamp jumps ahead by 1 s: frames were dropped) | F n (n empty frames, regular time stamps)
  */
 #include <stdio.h>
 #include <stdlib.h>
@@ -188,6 +189,20 @@ int main(void)
 			feed(&s); report();
 			break;
 		}
+		case 'G':       /* time stamp discontinuity */
+			tx.t += 1.0;
+			vbi_decode(vbi, NULL, 0, tx.t);
+			tx.t += 0.04;
+			report();
+			break;
+		case 'F':       /* frames without data, as vbi_decode() asks for */
+			sscanf(line + 1, "%d", &d);
+			while (d-- > 0) {
+				vbi_decode(vbi, NULL, 0, tx.t);
+				tx.t += 0.04;
+			}
+			report();
+			break;
 		case 'W':
 			sscanf(line + 1, "%x %x", &a, &b);
 			s.id = VBI_SLICED_WSS_625; s.line = 23;
